@@ -17,11 +17,13 @@ MatchFacts.lean:
   glomDispatchOrder: the tests of core._glom (TType, glomit, mode)
   precedenceRules: if-chain of `_precedence` as (test, result)
   handleDictRequired: the condition of the `required` set comprehension (unparsed)
-  matchMutations: (function, mutated name, how) for every statement in
-                  _glom_match/_handle_dict/Regex.glomit/Match.glomit that stores into or calls a
-                  mutating method on an object
-  matchFresh    : (function, name) for the local names bound to a fresh
-                  display / comprehension / constructor call
+  matchMutations: (function, mutated name, how) for every statement in _glom_match / _handle_dict and
+                  every glomit / _glomit / matches / verify method of matching.py's classes that stores
+                  into, deletes from, or calls a mutating method / setattr on an object
+  matchFresh    : (function, name) for the local names ALL of whose bindings in that function are
+                  assignments of a fresh display / comprehension
+  matchUserAttrs: (function, object.attribute) for every attribute read directly off a user object
+                  (spec / target / key ...) in _glom_match / _handle_dict
   identityMarkers: (name, way of copying, preserved?) for the module-level objects matching.py compares by
                   identity (`is` / `is not`): does copy.copy / copy.deepcopy / a pickle round trip give
                   back the very same object (by import-time introspection)
@@ -309,14 +311,53 @@ def extract(ctx):
         if not req:
             P.add('_handle_dict: `required = {…}` comprehension not found')
 
-    # ---- mutation sites (frame condition of C09)
+    # ---- mutation sites (frame condition of C09): EVERY function that runs during a match - the mode
+    # function, its dict helper, and every glomit / _glomit / matches / verify method of matching.py's classes.
+    # A name counts as FRESH in a function only if EVERY binding of it in that function (assignment,
+    # augmented assignment, loop / with / except target, parameter) is a plain assignment of a fresh
+    # display or comprehension: `result = {}` followed somewhere by `result = target` is not fresh.
     muts, fresh = [], []
-    fns = [('_glom_match', gm), ('_handle_dict', hd), ('Regex.glomit', find_def(mt, 'glomit', cls='Regex')),
-           ('Match.glomit', find_def(mt, 'glomit', cls='Match')),
-           ('Optional.glomit', find_def(mt, 'glomit', cls='Optional'))]
+    fns = [('_glom_match', gm), ('_handle_dict', hd)]
+    for cls in mt.body:
+        if isinstance(cls, ast.ClassDef):
+            for fn in cls.body:
+                if isinstance(fn, ast.FunctionDef) and fn.name in ('glomit', '_glomit', 'matches', 'verify'):
+                    fns.append(('%s.%s' % (cls.name, fn.name), fn))
+    FRESH_VALUES = (ast.Dict, ast.List, ast.Set, ast.SetComp, ast.DictComp, ast.ListComp)
     for name, fn in fns:
         if fn is None:
             continue
+        a = fn.args
+        bindings = {}                # name -> [is this binding a fresh display?]
+        for x in a.args + a.kwonlyargs + a.posonlyargs + [y for y in (a.vararg, a.kwarg) if y is not None]:
+            bindings.setdefault(x.arg, []).append(False)
+
+        def bind_target(t, is_fresh):
+            for m in ast.walk(t):
+                if isinstance(m, ast.Name) and isinstance(m.ctx, ast.Store):
+                    bindings.setdefault(m.id, []).append(is_fresh)
+        for n in walk_no_nested(fn):
+            if isinstance(n, ast.Assign):
+                for t in n.targets:
+                    if isinstance(t, ast.Name):
+                        bindings.setdefault(t.id, []).append(isinstance(n.value, FRESH_VALUES))
+                    else:
+                        bind_target(t, False)
+            elif isinstance(n, (ast.AugAssign, ast.AnnAssign)):
+                bind_target(n.target, False)
+            elif isinstance(n, (ast.For, ast.AsyncFor)):
+                bind_target(n.target, False)
+            elif isinstance(n, ast.With):
+                for it in n.items:
+                    if it.optional_vars is not None:
+                        bind_target(it.optional_vars, False)
+            elif isinstance(n, ast.ExceptHandler) and n.name:
+                bindings.setdefault(n.name, []).append(False)
+            elif isinstance(n, ast.NamedExpr):
+                bind_target(n.target, False)
+        for nm, bs in bindings.items():
+            if bs and all(bs):
+                fresh.append((name, nm))
         for n in walk_no_nested(fn):
             if isinstance(n, (ast.Assign, ast.AugAssign, ast.Delete)):
                 tgts = n.targets if not isinstance(n, ast.AugAssign) else [n.target]
@@ -326,17 +367,28 @@ def extract(ctx):
                         while isinstance(base, (ast.Subscript, ast.Attribute)):
                             base = base.value
                         muts.append((name, ast.unparse(base), 'store'))
-                if isinstance(n, ast.Assign) and len(n.targets) == 1 and isinstance(n.targets[0], ast.Name):
-                    v = n.value
-                    if isinstance(v, (ast.Dict, ast.List, ast.Set, ast.SetComp, ast.DictComp, ast.ListComp)):
-                        fresh.append((name, n.targets[0].id))
             elif isinstance(n, ast.Call) and isinstance(n.func, ast.Attribute) and n.func.attr in MUTATORS:
                 base = n.func.value
                 while isinstance(base, (ast.Subscript, ast.Attribute)):
                     base = base.value
                 muts.append((name, ast.unparse(base), n.func.attr))
+            elif isinstance(n, ast.Call) and ast.unparse(n.func) in ('setattr', 'delattr') and n.args:
+                muts.append((name, ast.unparse(n.args[0]), ast.unparse(n.func)))
     muts = sorted(set(muts))
     fresh = sorted(set(fresh))
+
+    # ---- attributes read directly off the user's objects (spec / target / key ...) in the mode function
+    # and its dict helper: `spec.__name__` in a message made callables without __name__ fail (f18ec61)
+    user_attrs = []
+    for fname, fn in (('_glom_match', gm), ('_handle_dict', hd)):
+        if fn is None:
+            continue
+        for n in ast.walk(fn):
+            if isinstance(n, ast.Attribute) and isinstance(n.value, ast.Name) and n.value.id in (
+                    'spec', 'target', 'key', 'val', 'item', 'child', 'sub_target', 'sub_spec', 'spec_key',
+                    'maybe_spec_key'):
+                user_attrs.append((fname, n.value.id + '.' + n.attr))
+    user_attrs = sorted(set(user_attrs))
 
     # ---- instance state written outside __init__ (C10: an object evaluated earlier, then used again)
     SPEC_CLASSES = ('_Bool', 'And', 'Or', 'Not', '_MExpr', '_MSubspec', '_MType', 'Switch', 'Check',
@@ -510,7 +562,9 @@ def extract(ctx):
     defs = [
         ('identityMarkers', 'List (String × String × Bool)', identity),
         ('matchModuleWrites', 'List (String × String × String)', module_writes),
+        ('matchUserAttrs', 'List (String × String)', user_attrs),
         ('abcClassTable', 'List (String × List String)', abc_rows),
+        ('abcNames', 'List String', [a.__name__ for a in abcs]),
         ('combSelfWrites', 'List (String × String × String)', self_writes),
         ('matchRaises', 'List (String × List String)', raises),
         ('matchCatches', 'List (String × List (List String))', catches),
